@@ -337,18 +337,31 @@ def f64bits(x):
     return struct.unpack("<Q", struct.pack("<d", x))[0]
 
 
+MAX_NUM_BITS = (2**31 - 1 - 4) * 64
+
+
+def stable_ceil(x):
+    """ceil(x) when two correctly working libm implementations are certain to agree on it, else None: a value within 1e-9
+    (relative) of an integer k >= 1 may fall on either side of k; a tiny positive value has ceiling 1 whatever its last bits"""
+    r = round(x)
+    if r >= 1 and abs(x - r) <= 1e-9 * max(1.0, abs(x)):
+        return None
+    return math.ceil(x)
+
+
 def sizing(n, p):
-    """builder.rs: suggest_num_bits / suggest_num_hashes_from_accuracy, recomputed here; returns None when the
-    value is too close to an integer for two libm implementations to be trusted to agree on the ceiling"""
+    """builder.rs: suggest_num_bits / suggest_num_hashes_from_accuracy, recomputed here; None when a ceiling is too close
+    to call.  fpp = 1.0 is exact: ln(1.0) = 0, zero bits before the clamp to MIN_NUM_BITS."""
     ln2 = math.log(2.0)
     xb = -n * math.log(p) / (ln2 * ln2)
-    if abs(xb - round(xb)) < 1e-6:
+    cb = stable_ceil(xb)
+    if cb is None:
         return None
-    bits = max(1, math.ceil(xb))
-    xk = bits / n * ln2
-    if abs(xk - round(xk)) < 1e-6:
+    bits = min(MAX_NUM_BITS, max(1, cb))
+    ck = stable_ceil(bits / n * ln2)
+    if ck is None:
         return None
-    return bits, min(32767, max(1, math.ceil(xk)))
+    return bits, min(32767, max(1, ck))
 
 
 def gen_fpp(rng, cid):
@@ -604,6 +617,35 @@ def gen_malformed_case(rng, cid, tier):
     return Case(cid, [NSLOTS], ops, tag="bloom-malformed")
 
 
+def gen_boundary_case(rng, cid, tier):
+    """C14: an otherwise VALID image with ONE numeric field at each of its type boundaries: preamble byte, serial version,
+    family, flags, num_hashes (u16), seed (u64), num_longs (i32), count (u64); every accepted value is used"""
+    f = base_filter(rng)
+    while f.nw > 8:
+        f = base_filter(rng)
+    pc = f.popcount()
+    long_img = f.image(empty=False, count=rng.choice([pc, M64]))
+    short_img = f.image() if pc == 0 else None
+    fields = [(0, 1, [0, 2, 3, 4, 5, 255]), (1, 1, [0, 1, 2, 255]), (2, 1, [0, 20, 21, 22, 255]), (3, 1, [0, 4, 0xfb, 0xff]),
+              (4, 2, [0, 1, 32767, 32768, 65535]), (6, 2, [0, 65535]), (8, 8, [0, 1, 1 << 63, M64]),
+              (16, 4, [1 << 31, -1, 0, 1, (1 << 31) - 1, f.nw - 1, f.nw, f.nw + 1]), (20, 4, [0, (1 << 32) - 1]),
+              (24, 8, [0, 1, pc - 1, pc, pc + 1, f.cap, f.cap + 1, 1 << 63, M64 - 1, M64])]
+    ops = []
+    for img in (long_img, short_img):
+        if img is None:
+            continue
+        for off, width, vals in fields:
+            if off + width > len(img):
+                continue
+            for v in vals:
+                b = list(img); b[off:off + width] = le(v, width)
+                if too_big(b):
+                    continue
+                ops.append((17, [1])); ops.append((17, [0] + b))
+                use_value(rng, ops, 0, 1, b)
+    return Case(cid, [NSLOTS], ops, tag="bloom-malformed-boundary")
+
+
 def gen_truncation_case(rng, cid, tier):
     """C14: a valid image cut at EVERY offset (and extended by one byte)"""
     f = base_filter(rng)
@@ -727,8 +769,8 @@ def gen_extremes_case(rng, cid, tier, huge_only=False):
     nh = rng.choice([1, 1, 2, 3, 7, 16, 255, 2047, 32767]) if not huge else rng.choice([1, 2, 5])
     slow = nh > 300
     # the extracted model needs ~0.5 ms per hash position (15 s for one call with 32767 hash functions): such filters are
-    # hashed by the crate through the clone probe (op 18) and by the model only in the thorough tier, once
-    direct = {2047: 2, 32767: 1 if tier == "thorough" else 0}.get(nh, 10**9)
+    # hashed by the crate through the clone probe (op 18) and by the model only in the thorough tier, once, in a quarter of these cases
+    direct = {2047: 2, 32767: 1 if (tier == "thorough" and rng.random() < 0.25) else 0}.get(nh, 10**9)
     seed = rng.choice([0, M64, 9001, 1, rng.getrandbits(64)])
     nslots = rng.choice([1, 2, 3])
     budget = 12 if slow else (12 if huge else (rng.choice([20, 80, 250]) if tier == "quick" else rng.choice([80, 400, 1500])))
@@ -783,6 +825,41 @@ def gen_extremes_case(rng, cid, tier, huge_only=False):
     return Case(cid, [NSLOTS], ops, tag="bloom-extremes")
 
 
+BELOW_ONE = struct.unpack("<d", struct.pack("<Q", 0x3FEFFFFFFFFFFFFF))[0]      # the largest f64 below 1.0
+MIN_POSITIVE = 2.2250738585072014e-308
+# (max_items, fpp) at the documented extremes of with_accuracy (max_items > 0, fpp in (0, 1]); the "huge" item counts are
+# chosen so that the suggested size stays small enough for the list-based model
+ACCURACY_EXTREMES = [(1, 1.0), (2, 1.0), (M64, 1.0), (1, BELOW_ONE), (2, BELOW_ONE), (M64, BELOW_ONE), (1 << 53, BELOW_ONE),
+                     (1, 0.5), (2, 0.5), (50000, 0.5), (1, 1e-300), (2, 1e-300), (40, 1e-300),
+                     (1, MIN_POSITIVE), (2, MIN_POSITIVE), (40, MIN_POSITIVE)]
+
+
+def gen_extremes_accuracy_case(rng, cid, tier, k):
+    """C17: with_accuracy(max_items, fpp) at a documented extreme (fpp = 1.0 exactly: ln = 0, zero bits before the clamp to
+    MIN_NUM_BITS; the largest double below 1.0; tiny fpp => about a thousand hash functions); the filter it builds is then
+    exercised: insert, contains, contains_and_insert, fork, union / intersect with its own copy, invert, codec"""
+    n, p = ACCURACY_EXTREMES[k % len(ACCURACY_EXTREMES)]
+    sz = sizing(n, p)
+    assert sz is not None and sz[0] <= 1 << 17, (n, p, sz)
+    bits, nh = sz
+    seed = rng.choice([0, M64, 9001])
+    F, C = 0, 1
+    ops = [(14, [F, n, f64bits(p), seed, bits, nh]), (12, [F]), (8, [F])]
+    direct = 2 if nh > 300 else 12                      # ~0.5 ms per hash position in the extracted model
+    for i in range(direct):
+        x = rng.choice([0, -1, 2**63 - 1, -2**63, rng.getrandbits(64) - 2**63])
+        ops.append(item_op([3, 2, 1][i % 3], F, x, seed))
+        ops.append((18, [F, x]))
+    ops += [(8, [F]), (16, [F, C]), (13, [F, C]), (4, [F, C]), (5, [F, C]), (8, [F]), (9, [F]), (10, [F]), (19, [F]),
+            (6, [F]), (8, [F]), (18, [F, 7]), (4, [F, C]), (8, [F]), (7, [F]), (8, [F]), (19, [F])]
+    x = rng.getrandbits(64) - 2**63
+    ops.append(item_op(3, F, x, seed))
+    if nh <= 300:
+        ops.append(item_op(2, F, x, seed))
+    ops.append((8, [F]))
+    return Case(cid, [NSLOTS], ops, tag="bloom-extremes-accuracy")
+
+
 def gen_extremes_builder_case(rng, cid, tier):
     """C17: the builder at its documented limits (with_size bounds of num_hashes; with_accuracy)"""
     ops = [(0, [0, 1, 1, 0]), (12, [0]), (0, [1, 64, 32767, M64]), (12, [1]), (9, [1]), (10, [1]), (6, [1]), (8, [1])]
@@ -834,12 +911,16 @@ def gen(rng, tier, n=None, focus=None):
     if focus == "malformed":
         cases = []
         for i in range(n):
-            cases.append(gen_truncation_case(rng, i, tier) if i % 10 == 9 else gen_malformed_case(rng, i, tier))
+            cases.append(gen_truncation_case(rng, i, tier) if i % 10 == 9 else
+                         gen_boundary_case(rng, i, tier) if i % 10 == 4 else gen_malformed_case(rng, i, tier))
         return cases + [gen_bigalloc_case(rng, n + i, tier) for i in range(6)]
     if focus == "foreign":
         return [gen_foreign_case(rng, i, tier) for i in range(n)]
     if focus == "extremes":
-        return [gen_extremes_builder_case(rng, i, tier) if i % 12 == 11 else gen_extremes_case(rng, i, tier) for i in range(n)]
+        # every run starts with with_accuracy at each of its documented extremes (fpp = 1.0 exactly among them)
+        na = len(ACCURACY_EXTREMES)
+        return [gen_extremes_accuracy_case(rng, i, tier, i) for i in range(na)] + \
+               [gen_extremes_builder_case(rng, na + i, tier) if i % 12 == 11 else gen_extremes_case(rng, na + i, tier) for i in range(max(0, n - na))]
     if focus == "extremes-huge":      # 2^20-bit filters: beyond the list-based Spec oracle, judged by the model and the no-panic oracle
         return [gen_extremes_case(rng, i, tier, huge_only=True) for i in range(n)]
     if focus == "size":
